@@ -9,7 +9,7 @@ CREGS = ['x8', 'x9', 'x10', 'x15', 's0', 's1', 'a0', 'a5']
 NZREGS = [r for r in REGS if r not in ('x0', 'zero')]
 CODE_LABELS = ['la', 'lb', 'lc', 'ld', 'le', 'fade', 'cafe']
 DATA_LABELS = ['dat1', 'dat2', 'dat3']
-CONSTS = ['KA', 'KB', 'KC', 'KD', 'ADC0', 'BEEF']
+CONSTS = ['KA', 'KB', 'KC', 'KD', 'ADC0', 'BEEF', 'add', 'nop']
 BIGCONSTS = ['BIG1', 'BIG2']
 REGCONSTS = ['RX', 'RY']
 
